@@ -199,6 +199,8 @@ func c07TwoOutputs(maxMsg, maxRec int) *c07Conf {
 	cf.Outs = []c07Out{
 		{Env: []string{"host", "app"}, Hidden: []string{"cls"}, Rewrite: []c07Rw{{Field: "log", Steps: []c07Step{{2, "cls"}, {1, ""}}}}, Mode: 1, MaxRecords: 3, MaxBytes: 4000},
 		{Env: []string{"host"}, Hidden: nil, Rewrite: []c07Rw{{Field: "source", Steps: []c07Step{{0, ""}}}}, Mode: 0, MaxRecords: 3, MaxBytes: 4000},
+		// a datadog output, as in the sample configuration (JSON; the chunk limits are constants of the package)
+		{Hidden: []string{"host", "cls", "pid"}, Mode: 3},
 	}
 	return cf
 }
@@ -593,6 +595,9 @@ func c07GenRandomConfigs(g *Gen) {
 			}
 			if k > 0 {
 				o.MaxRecords, o.MaxBytes = cf.Outs[0].MaxRecords, cf.Outs[0].MaxBytes // the limits are package variables
+			}
+			if k > 0 && g.R.Chance(1, 2) {
+				o = c07Out{Hidden: o.Hidden, Mode: 3}
 			}
 			cf.Outs = append(cf.Outs, o)
 		}
